@@ -190,6 +190,67 @@ func getFileNameForType(typePrefix string, headerType HeaderFooterType) string {
 	}
 }
 
+// headerFooterFileName 返回指定类型的页眉/页脚应写入的部件文件名。
+// 该类型已有引用时沿用其关系指向的部件（重新定义即覆盖该部件）；否则使用约定名称，
+// 若约定名称已被其他部件或关系占用（例如打开的文档按 header1.xml、header2.xml…… 编号，
+// header1.xml 可能属于首页页眉），则选用第一个未被占用的编号名称，避免覆盖其他类型的定义。
+func (d *Document) headerFooterFileName(typePrefix string, hfType HeaderFooterType) string {
+	relType := "http://schemas.openxmlformats.org/officeDocument/2006/relationships/" + typePrefix
+
+	// 查找该类型已有的引用
+	refID := ""
+	for _, element := range d.Body.Elements {
+		sectPr, ok := element.(*SectionProperties)
+		if !ok {
+			continue
+		}
+		if typePrefix == "header" {
+			for _, ref := range sectPr.HeaderReferences {
+				if ref.Type == string(hfType) {
+					refID = ref.ID
+					break
+				}
+			}
+		} else {
+			for _, ref := range sectPr.FooterReferences {
+				if ref.Type == string(hfType) {
+					refID = ref.ID
+					break
+				}
+			}
+		}
+		break
+	}
+	if refID != "" && d.documentRelationships != nil {
+		for _, rel := range d.documentRelationships.Relationships {
+			if rel.ID == refID && rel.Type == relType && rel.Target != "" && !strings.ContainsAny(rel.Target, "/\\") {
+				return rel.Target
+			}
+		}
+	}
+
+	name := getFileNameForType(typePrefix, hfType)
+	for n := 1; d.headerFooterFileNameInUse(name); n++ {
+		name = fmt.Sprintf("%s%d.xml", typePrefix, n)
+	}
+	return name
+}
+
+// headerFooterFileNameInUse 判断 word/ 下的文件名是否已被某个部件或文档关系使用
+func (d *Document) headerFooterFileNameInUse(name string) bool {
+	if _, exists := d.parts["word/"+name]; exists {
+		return true
+	}
+	if d.documentRelationships != nil {
+		for _, rel := range d.documentRelationships.Relationships {
+			if rel.Target == name {
+				return true
+			}
+		}
+	}
+	return false
+}
+
 // AddHeader 添加页眉
 func (d *Document) AddHeader(headerType HeaderFooterType, text string) error {
 	header := createStandardHeader()
@@ -220,7 +281,7 @@ func (d *Document) AddHeader(headerType HeaderFooterType, text string) error {
 	fullXML := append([]byte(xml.Header), headerXML...)
 
 	// 获取文件名
-	fileName := getFileNameForType("header", headerType)
+	fileName := d.headerFooterFileName("header", headerType)
 	headerPartName := fmt.Sprintf("word/%s", fileName)
 
 	// 存储页眉内容
@@ -273,7 +334,7 @@ func (d *Document) AddFooter(footerType HeaderFooterType, text string) error {
 	fullXML := append([]byte(xml.Header), footerXML...)
 
 	// 获取文件名
-	fileName := getFileNameForType("footer", footerType)
+	fileName := d.headerFooterFileName("footer", footerType)
 	footerPartName := fmt.Sprintf("word/%s", fileName)
 
 	// 存储页脚内容
@@ -352,7 +413,7 @@ func (d *Document) AddHeaderWithPageNumber(headerType HeaderFooterType, text str
 	fullXML := append([]byte(xml.Header), headerXML...)
 
 	// 获取文件名
-	fileName := getFileNameForType("header", headerType)
+	fileName := d.headerFooterFileName("header", headerType)
 	headerPartName := fmt.Sprintf("word/%s", fileName)
 
 	// 存储页眉内容
@@ -431,7 +492,7 @@ func (d *Document) AddFooterWithPageNumber(footerType HeaderFooterType, text str
 	fullXML := append([]byte(xml.Header), footerXML...)
 
 	// 获取文件名
-	fileName := getFileNameForType("footer", footerType)
+	fileName := d.headerFooterFileName("footer", footerType)
 	footerPartName := fmt.Sprintf("word/%s", fileName)
 
 	// 存储页脚内容
@@ -590,7 +651,7 @@ func (d *Document) AddFormattedHeader(headerType HeaderFooterType, config *Heade
 	fullXML := append([]byte(xml.Header), headerXML...)
 
 	// 获取文件名
-	fileName := getFileNameForType("header", headerType)
+	fileName := d.headerFooterFileName("header", headerType)
 	headerPartName := fmt.Sprintf("word/%s", fileName)
 
 	// 存储页眉内容
@@ -655,7 +716,7 @@ func (d *Document) AddFormattedFooter(footerType HeaderFooterType, config *Heade
 	fullXML := append([]byte(xml.Header), footerXML...)
 
 	// 获取文件名
-	fileName := getFileNameForType("footer", footerType)
+	fileName := d.headerFooterFileName("footer", footerType)
 	footerPartName := fmt.Sprintf("word/%s", fileName)
 
 	// 存储页脚内容
